@@ -105,7 +105,11 @@ def h_conv() -> Union[bool, str]:
     c = _COMPILED.get(q)
     if c is None:
         c = _COMPILED[q] = (ENV.compile(q), ref_parse(q, FNS.signatures()))
-    child = hcommon.sym_json("c", P.get("depth", 1), 2, kind=P.get("childkind"), strlen=1, intbound=1000, names=["a", "b"])
+    if P.get("single_member"):
+        inner = hcommon.sym_json("i", 1, 2, kind=P.get("innerkind"), strlen=1, intbound=1000, names=["a", "b"])
+        child = {"a": inner} if hcommon.sym_choice("shape", 2) == 0 else [inner]
+    else:
+        child = hcommon.sym_json("c", P.get("depth", 1), 2, kind=P.get("childkind"), strlen=1, intbound=1000, names=["a", "b"])
     doc = [child] if P["wrap"] == "array" else {"k": child, "a": 0}
     del IMPL_LOG[:]
     del REF_LOG[:]
@@ -196,6 +200,10 @@ def obligations(tier: str):
         for ck in range(7):
             for w in (("array",) if tier == "quick" else ("array", "object")):
                 obls.append({"id": "conv%02d.%s.%s" % (qi, hcommon.KIND_NAMES[ck], w), "func": "h_conv", "params": {"query": q, "childkind": ck, "wrap": w, "depth": 1 if tier == "quick" or ck < 5 else 2}, "timeout": t})
+        if "value(" in q or "vv(" in q or "length(" in q:
+            # a nested call feeding a parameter: the only member of the child holds an arbitrary one-level value
+            for ik in range(7):
+                obls.append({"id": "nested%02d.%s" % (qi, hcommon.KIND_NAMES[ik]), "func": "h_conv", "params": {"query": q, "single_member": True, "innerkind": ik, "wrap": "array"}, "timeout": t})
     for k in range(7):
         obls.append({"id": "length.%s" % hcommon.KIND_NAMES[k], "func": "h_length", "params": {"kind": k}, "timeout": t})
     obls.append({"id": "length.nothing", "func": "h_length_nothing", "timeout": 60})
